@@ -16,13 +16,44 @@ NOTES = ('All checks: bin/check <ID> --tier quick|thorough [--replay file]; '
          'exit 0 held / 1 VIOLATION / 2 INCONCLUSIVE. Known findings and '
          'fixes: /verif/KNOWN_FINDINGS.txt. Design: /verif/DESIGN.md.')
 
-_PENDING = 'check not built yet in this round (planned, see DESIGN.md section 4)'
-NOT_APPLICABLE = [
-    {'property_id': 'C%02d' % i, 'reason': _PENDING}
-    for i in range(1, 21) if 'C%02d' % i not in ('C18', 'C19', 'C20')
-]
-
 CHECKS = {
+    'C01': dict(
+        level='exploration',
+        technique='runtime monitoring: round-trip and node-slice oracle over '
+                  'the real parser on documents rendered from random syntax '
+                  'trees of the construct grammar + repository corpus',
+        text='On every generated well-formed document (all documented '
+             'constructs, all sibling/parent adjacencies the grammar allows, '
+             'depth up to 6) and on the repository samples/doc examples, '
+             'parsing succeeded, str(soup) equalled the source and every '
+             'node/group/token text was the source slice at its position.',
+        note='Well-formedness is the generator grammar G with the separator '
+             'discipline of DESIGN 3.1; sampled, not exhaustive.',
+        design_ref='4/C01'),
+    'C02': dict(
+        level='exploration',
+        technique='runtime monitoring: parsed tree converted back to the '
+                  'generating syntax tree and compared (ground-truth oracle)',
+        text='For every generated document the real parse tree, read through '
+             'its raw representation, equals the syntax tree the document was '
+             'rendered from (kinds, names, argument kinds/order/contents, '
+             'nesting, comments as single leaves).',
+        note='The oracle is the generator AST; text leaf segmentation is '
+             'ignored (adjacent text merged).',
+        design_ref='4/C02'),
+    'C13': dict(
+        level='exploration',
+        technique='runtime monitoring: slice oracle on recorded positions, '
+                  'closed-form line/column oracle on every offset, regex '
+                  'match offsets vs source; exhaustive {a,LF} strings',
+        text='Every recorded position of every node/group/text token of the '
+             'generated documents is the true offset; char_pos_to_line equals '
+             'the closed form for every offset of every document and of every '
+             'string over {a,LF} up to the bound (exhaustive); every '
+             'search_regex match is the source slice at its offset.',
+        note='Fresh parses only (positions are documented as not updated by '
+             'edits).',
+        design_ref='4/C13'),
     'C18': dict(
         level='exploration',
         technique='runtime monitoring: operation histories on the real TexArgs '
@@ -60,3 +91,10 @@ CHECKS = {
              'truthy items.',
         design_ref='4/C20'),
 }
+
+_PENDING = 'check not built yet in this round (planned, see DESIGN.md section 4)'
+NOT_APPLICABLE = [
+    {'property_id': 'C%02d' % i, 'reason': _PENDING}
+    for i in range(1, 21) if 'C%02d' % i not in CHECKS
+]
+
